@@ -322,6 +322,8 @@ pub struct ReadOracle {
     master: u16,
     own: u16,
     confirm_timeout: u64,
+    /// receive buffer of the outstation: a larger request never reaches its application layer
+    rx_size: usize,
     class_zero_octets: bool,
     /// the READ most recently sent: (seq, headers)
     last_read: Option<(u8, Vec<refapp::HeaderInfo>)>,
@@ -342,6 +344,7 @@ impl ReadOracle {
             master: case.cfg.master_addr,
             own: case.cfg.outstation_addr,
             confirm_timeout: case.cfg.confirm_timeout_ms,
+            rx_size: case.cfg.rx,
             class_zero_octets: case.cfg.class_zero_octet_strings,
             last_read: None,
             snapshot: None,
@@ -633,6 +636,19 @@ impl Oracle for ReadOracle {
                             self.confirm_sent = Some((s.bytes[0] & 0x0F, s.t_ms));
                         }
                         continue;
+                    }
+                    // "a new request ends the series" - taken from the wire, not from the outstation's own account of it
+                    if s.bytes[0] & 0xF0 == 0xC0 && s.bytes.len() <= self.rx_size && !matches!(step.op, Op::Repeat) {
+                        if let Some(sr) = self.series.as_mut() {
+                            if !sr.finished && sr.awaiting_confirm.is_some() {
+                                sr.finished = true;
+                                sr.awaiting_confirm = None;
+                                self.counters
+                                    .entry("probe.series_ended_by_request_on_the_wire".into())
+                                    .and_modify(|x| *x += 1)
+                                    .or_insert(1);
+                            }
+                        }
                     }
                     if func == refapp::FUNC_READ
                         && s.bytes[0] & 0xF0 == 0xC0
